@@ -78,3 +78,25 @@ PROPS["C07"] = {
         Leg("stream", "c07", "^TestStream$", checks=(3000, 20000), shards=(2, 16), tests=["stream"]),
     ],
 }
+
+PROPS["C01"] = {
+    "title": "Only complete CRC-valid frames are ever presented as typed RTCM messages",
+    "level": "exploration",
+    "technique": "property-based testing (rapid) of streams and single buffers + native fuzzing; oracle: validity predicate with an independent bitwise CRC-24Q",
+    "level_text": ("Generated-input exploration against a validity predicate that shares no code with the library (own CRC-24Q, self-tested against the "
+                   "published check value and captured frames): every typed delivery must be exactly one frame whose type is its first 12 payload bits. "
+                   "Corruptions are constructed (each CRC byte, reserved bits, zero length, length field, CRC re-computed over the wrong extent), so the "
+                   "classes the statement names are all hit thousands of times; the 256^n space itself cannot be exhausted."),
+    "rule": ("stream: adversarial segment grammar (valid frames of any type/length, junk with and without 0xD3, 12 corruption kinds, truncations, "
+             "near-frames, raw bytes) through HandleMessages with drawn channel capacities and through FetchNextMessageFrame over a closed channel; "
+             "buffer: single buffers for GetMessage (valid, corrupted, truncated, valid+extra, valid+valid, declared length shorter/longer than the data "
+             "with the CRC computed over the whole buffer, arbitrary 0xD3-led bytes). Non-trivial = stream holds a 0xD3-led candidate that is not a valid "
+             "frame and at least one message was delivered typed / buffer starts with 0xD3 and is not exactly a valid frame; distinct = distinct case hash."),
+    "assumptions": ["harness CRC-24Q (bitwise, poly 0x1864CFB) is correct - self-tested at start-up, failure exits 2", "Go toolchain, rapid v1.3.0"],
+    "min_evals": {"quick": 20000, "thorough": 500000},
+    "legs": [
+        Leg("stream", "c01", "^TestStream$", checks=(3000, 25000), shards=(2, 16), tests=["stream"]),
+        Leg("buffer", "c01", "^TestBuffer$", checks=(30000, 250000), shards=(2, 16), tests=["buffer"]),
+        Leg("fuzz-buffer", "c01", "", engine="native-fuzz", fuzz="FuzzBuffer", fuzztime=90, tiers=("thorough",)),
+    ],
+}
